@@ -397,6 +397,9 @@ func init() {
 			case wantTree != nil:
 				if got != "ok "+msgsString(wantTree)+" ; send=ok" {
 					prop = "FAIL C12 the request is not transmitted as written: " + trunc(sb.String(), 160) + " gives " + trunc(got, 160)
+					if strings.HasPrefix(label, "digit-string tag") {
+						prop += " ;; FAIL C14 a tag written as its number in a string is not read as that tag by the command line tool"
+					}
 				}
 			case mustReject:
 				if strings.HasSuffix(got, "send=ok") {
